@@ -1,6 +1,6 @@
 (* C15  The test-run flag alone controls whether test and docs directories are analysed. *)
 From Coq Require Import List Bool Permutation.
-From SV Require Import Lib.Str Gen.Tables Model.Discover Proofs.DiscoverProofs.
+From SV Require Import Lib.Str Gen.Tables Model.Types Model.Api Model.Discover Model.View Model.Front Proofs.DiscoverProofs Proofs.WalkProofs.
 
 (* a globbed file is analysed iff (flag or no path segment is one of the three names) and it is not an __init__ file *)
 Theorem C15_filter_spec : forall tr files f,
@@ -37,6 +37,22 @@ Theorem C15_walk_respects_filter : forall graph w p x,
                  (ends_with t_init_file x = false /\ In x w)).
 Proof. exact walk_respects_filter. Qed.
 
+(* WHOLE ANALYZER: every module of the API object is a tree of the build graph whose file passed the discovery filter,
+   whatever else mypy loaded; without the flag, none of them lies in a directory named test, tests or docs *)
+Theorem C15_front_modules_are_filtered : forall v o md,
+  front v = Ok o -> In md (api_modules (o_api o)) ->
+  exists m, In (GMod m) (v_graph v) /\ m_id md = dots_to_slashes (mf_fullname m) /\
+    let '(walkable, packages) := discover (v_test_run v) (v_glob v) in
+    ((ends_with t_init_file (mf_path m) = true /\ In (init_package_path (mf_path m)) packages) \/
+     (ends_with t_init_file (mf_path m) = false /\ In (mf_path m) walkable)).
+Proof. exact front_modules_are_filtered. Qed.
+Theorem C15_no_module_from_excluded_directories : forall v o md,
+  front v = Ok o -> v_test_run v = false -> In md (api_modules (o_api o)) ->
+  exists m, In (GMod m) (v_graph v) /\ m_id md = dots_to_slashes (mf_fullname m) /\
+    ((ends_with t_init_file (mf_path m) = false /\ In (mf_path m) (v_glob v) /\ in_excluded_dir (mf_path m) = false) \/
+     (ends_with t_init_file (mf_path m) = true /\
+      exists f, In f (v_glob v) /\ in_excluded_dir f = false /\ is_init_file f = true /\ parent_dir f = init_package_path (mf_path m))).
+Proof. exact no_module_from_excluded_directories. Qed.
 Print Assumptions C15_filter_spec.
 Print Assumptions C15_package_spec.
 Print Assumptions C15_exact_segments.
@@ -44,3 +60,5 @@ Print Assumptions C15_table_is_spec.
 Print Assumptions C15_flag_on_all.
 Print Assumptions C15_flag_irrelevant_outside.
 Print Assumptions C15_walk_respects_filter.
+Print Assumptions C15_front_modules_are_filtered.
+Print Assumptions C15_no_module_from_excluded_directories.
